@@ -187,7 +187,7 @@ def site_what(world, bv, st):
             use = args
         for a in use:
             try:
-                tm = bv.trace_op(a)
+                tm = optnorm.inline_all(world, bv, bv.trace_op(a)) if world is not None else bv.trace_op(a)
                 ft = terms.format_term(bv, tm) if st["desc"].startswith("panic:") else None
                 if ft is not None and ft[0] is not None:
                     parts.append("fmt(%r)" % ft[0])
@@ -202,6 +202,7 @@ def site_what(world, bv, st):
             except Exception:
                 parts.append("?")
     s = "; ".join(parts)
+    s = _strip_adapters(s)
     # the task context argument of poll() is noise
     while True:
         m = re.search(r"get_context\(", s)
@@ -217,3 +218,68 @@ def site_what(world, bv, st):
     s = re.sub(r"\('rec', \d+\)", "rec", s)
     s = re.sub(r"\{closure#\d+\}", "{closure}", s)
     return s[:300]
+
+
+ADAPTERS = ("into_owned", "to_owned", "as_ref", "as_deref", "deref", "borrow", "clone", "into", "cloned")
+
+
+def _strip_adapters(s):
+    """Ownership/borrow adapters do not change what is unwrapped: f(x.into_owned()) and f(x) are one site."""
+    import re
+    from . import optnorm
+    for _ in range(50):
+        m = re.search(r"(?<![A-Za-z_:\x00])(%s)\(" % "|".join(ADAPTERS), s)
+        if not m:
+            break
+        c = optnorm._match_paren(s, m.end() - 1)
+        if c < 0:
+            break
+        inner = s[m.end():c]
+        # only single-argument adapter calls
+        d = 0
+        multi = False
+        for ch in inner:
+            if ch == "(":
+                d += 1
+            elif ch == ")":
+                d -= 1
+            elif ch == "," and d == 0:
+                multi = True
+        if multi:
+            s = s[:m.start()] + "\x00" + s[m.start():]   # leave it, avoid rematching
+            continue
+        s = s[:m.start()] + inner + s[c + 1:]
+    return s.replace("\x00", "")
+
+
+def site_shape(what):
+    """Coarser identity of a site: the outermost operation with its literal arguments, other arguments elided
+    (`get(…, 'appid')`, `as_bool(…)`).  Used only for the mock server's by-design assertions, where a refactoring may move a
+    check between a closure and its parent (changing how the operand is spelt) without changing what is asserted."""
+    import re
+    from . import optnorm
+    parts = []
+    for piece in what.split("; "):
+        m = re.match(r"([A-Za-z_][A-Za-z_0-9:<>]*)\(", piece)
+        if not m:
+            parts.append(piece if re.fullmatch(r"'.*'|\d+|fmt\(.*\)|[A-Za-z_:]+\{\}", piece) else "…")
+            continue
+        c = optnorm._match_paren(piece, m.end() - 1)
+        inner = piece[m.end():c] if c > 0 else ""
+        args = []
+        d = 0
+        cur = ""
+        for ch in inner:
+            if ch == "(" or ch == "{":
+                d += 1
+            elif ch == ")" or ch == "}":
+                d -= 1
+            if ch == "," and d == 0:
+                args.append(cur.strip())
+                cur = ""
+            else:
+                cur += ch
+        if cur.strip():
+            args.append(cur.strip())
+        parts.append("%s(%s)" % (m.group(1), ", ".join(a if re.fullmatch(r"'.*'|\d+", a) else "…" for a in args)))
+    return "; ".join(parts)
